@@ -100,9 +100,18 @@ def maxMax (f : Field → Nat) : List Field → Nat
   | [] => 0
   | x :: xs => max (f x) (maxMax f xs)
 
+/-- round up to a whole number of bytes -/
+def pad8 (n : Nat) : Nat := (n + 7) / 8 * 8
+
+/-- `bit_length_set.max` of a composite: a whole number of bytes -/
 def msgMax (f : Field → Nat) : Msg → Nat
-  | .struct fs => sumMax f fs
-  | .union tb _ fs => tb + maxMax f fs
+  | .struct fs => pad8 (sumMax f fs)
+  | .union tb _ fs => pad8 (tb + maxMax f fs)
+
+/-- the final `_pad_to_alignment(8)`: zero bits through the checked setter -/
+def padEnd (capBits : Nat) : Out → Out
+  | .ok off => if capBits < pad8 off then .err .bufferTooSmall else .ok (pad8 off)
+  | r => r
 
 /-- a write of `len` bits at `off`: `none` = done, go on -/
 def write (checked : Bool) (capBits off len : Nat) : Option Out :=
@@ -155,13 +164,13 @@ def ser (checkCap cmpStorage : Bool) (m : Msg) (o : MObj) (capBytes : Nat) : Out
   if checkCap && decide (capBits < msgMax fieldMax m) then .err .bufferTooSmall
   else
     match m, o with
-    | .struct fs, .struct vs => serFields cmpStorage capBits 0 fs vs
+    | .struct fs, .struct vs => padEnd capBits (serFields cmpStorage capBits 0 fs vs)
     | .union tb tagChecked fs, .union tag vs =>
       match write tagChecked capBits 0 tb with
       | some r => r
       | none =>
         match nth? fs tag, nth? vs tag with
-        | some f, some v => serField cmpStorage capBits tb f v
+        | some f, some v => padEnd capBits (serField cmpStorage capBits tb f v)
         | none, _ => .err .badUnionTag
         | some _, none => .shape
     | _, _ => .shape
